@@ -112,7 +112,8 @@ impl ReProgram {
                 let mut fp = fixed_position;
                 let mut mp = min_position;
                 for o in &sequence.operations {
-                    if matches!(o, Operation::Bol(_)) {
+                    // '^' pins the position to 0 only outside multi-line mode
+                    if matches!(o, Operation::Bol(_)) && !self.flags.is_multi_line() {
                         fp = Some(0);
                     }
                     self.add_precondition(o.clone(), fp, mp);
